@@ -380,6 +380,7 @@ class ContractSet:
         self.funcs = {}      # full go/ssa function name -> FuncContract
         self.ifaces = {}
         self.functypes = {}
+        self.shared = {}         # package-level variable (full name) -> reason it may be shared between instances
         self.globalinvs = []     # (pkg, Clause)     # (iface full type string, method) -> FuncContract
         self.lemmas = {}     # name -> LemmaDef
         self.impl = {}       # iface type string -> concrete receiver type string (assumption A1)
@@ -437,6 +438,13 @@ class ContractSet:
             # `init`) and that holds ever after because no other function stores to them (checked by a scan)
             text = ' '.join(g)[len(word):].strip()
             self.globalinvs.append((pkg, Clause([], ('inpkg', pkg, parse_expr(text)), text)))
+        elif word == 'shared':
+            # shared <Var> <reason>: the package-level variable refers to mutable state and is handed on to instances (found by
+            # the ownership scan, shared.py); accepted as an assumption: the reason says why no holder writes through it
+            m = re.match(r'shared\s+([A-Za-z_][A-Za-z_0-9]*)\s+(.*)', ' '.join(g))
+            if not m:
+                raise SpecError('bad shared: %r' % head)
+            self.shared[pkg + '.' + m.group(1)] = m.group(2).strip()
         elif word == 'assume-impl':
             # assume-impl io.IScanner = *io.StringScanner
             m = re.match(r'assume-impl\s+(\S+)\s*=\s*(\S+)', ' '.join(g))
